@@ -25,11 +25,25 @@ import (
 // pinned backend, one processed after it must be load-balanced; the instant
 // t0+L itself is a don't-care.
 
+// borrowDepth > 0 while a plan is generated on behalf of another property's generator: no further borrowing then.
+var borrowDepth int
+
 func genLifetimePlan(seed uint64, tier string) *Plan {
 	g := newGen(seed)
 	if g.chance(4) {
 		// pins made by the answers of TCP backends, probed well inside their lifetime (tcpsticky.go)
 		return genTCPStickyPlan(seed, tier)
+	}
+	if g.chance(6) && borrowDepth == 0 {
+		// the dialog worlds of C04 - many concurrent dialogs of both kinds, duplicates, reordering, several listen
+		// entries - all inside the lifetime the establishing answers promise: every pin is honoured (C15's first clause)
+		borrowDepth++
+		p := genStickyPlan(seed, tier)
+		borrowDepth--
+		if p.Variant == "" {
+			p.Variant = "sticky"
+			return p
+		}
 	}
 	p := &Plan{Sched: g.intn(3), PCTDepth: 1 + g.intn(2), MapPerm: g.chance(50)}
 	c := genDialogCfg(g, 1, 2, 4)
@@ -242,6 +256,22 @@ func execLifetime(t *testing.T, p *Plan) *Result {
 	if p.Variant == "tcp-backends" {
 		return execTCPSticky(t, p)
 	}
+	if p.Variant == "sticky" {
+		q := *p
+		q.Variant = ""
+		r := execSticky(t, &q)
+		if !p.Replay {
+			p.Tape = q.Tape
+		}
+		for _, v := range append([]Violation(nil), r.Viol...) {
+			if v.Prop == "C04" && v.Rule == "in-dialog-request-left-its-backend" && !strings.Contains(v.Sig, "crossListener=true") {
+				v.Prop, v.Rule, v.Sig = "C15", "pin-not-honoured", "stickyWorld=true;"+v.Sig
+				r.Viol = append(r.Viol, v)
+			}
+		}
+		r.Judged = r.Stats["judged:C04"]
+		return r
+	}
 	r := &Result{}
 	timeout := time.Duration(p.Cfg.Knobs["timeout"]) * time.Second
 	purge := p.Variant == "purge" || p.Variant == "repin"
@@ -252,6 +282,10 @@ func execLifetime(t *testing.T, p *Plan) *Result {
 		pins := map[string]*pinModel{}
 		v := func(rule, id, sig, format string, a ...interface{}) {
 			w.Viol = append(w.Viol, Violation{Prop: "C15", Rule: rule, Msg: id, Sig: sig, Detail: fmt.Sprintf(format, a...)})
+			if p.Prop == "C04" && rule == "pin-not-honoured" {
+				// borrowed by C04: a request of a live dialog that does not reach the backend that answered is what C04 is about
+				w.Viol = append(w.Viol, Violation{Prop: "C04", Rule: "in-dialog-request-left-its-backend", Msg: id, Sig: "lifetimeWorld=true;" + sig, Detail: fmt.Sprintf(format, a...)})
+			}
 		}
 		nb := len(p.Cfg.Listens[0].Backends)
 		lastTraffic := w.K.Elapsed()
@@ -773,6 +807,9 @@ func execLifetime(t *testing.T, p *Plan) *Result {
 	}
 	finish(w, p, r)
 	r.Judged = w.Stats["judged:C15"]
+	if p.Prop == "C04" {
+		r.Stats["judged:C04"] = r.Judged
+	}
 	r.Class = fmt.Sprintf("%s/T%d/B%d/ops%d", p.Variant, p.Cfg.Knobs["timeout"], len(p.Cfg.Listens[0].Backends), len(p.Ops))
 	var steps []string
 	for i, op := range p.Ops {
